@@ -34,7 +34,7 @@ def run_program(arg):
     """arg=(idx, prog, ret, scheme, defined) -> dict(accepted, err, outs{mode: [per input: list|ERR|SKIP]})
     defined[k]: Python's meaning is defined on input k (the others may not terminate: not run)"""
     idx, prog, ret, scheme, defined = arg
-    src = scriptgen.program_src(prog, ret, scheme)
+    src = scriptgen.program_src(prog, ret, scheme % 10, closure=scheme >= 10)
     out = {"idx": idx, "src": src, "accepted": False, "err": None, "modes": {}}
     try:
         mod = scriptgen.load_source(src, "c01")
@@ -215,7 +215,8 @@ def run(ctx: core.Ctx):
     ctx.set("structure_checked", len(cand))
     ctx.add("structure_disagreements", 0)
     chosen = suspects[:400 if ctx.quick else 4000] + select(ctx, states, 1100)
-    args = [(i, s["prog"], list(s["ret"]), (i % len(scriptgen.NAME_SCHEMES)) if i % 4 == 3 else 0,
+    # i % 4 == 3: user names that look like generated ones; i % 4 == 1: defined inside a factory (closure constant)
+    args = [(i, s["prog"], list(s["ret"]), (i % len(scriptgen.NAME_SCHEMES)) if i % 4 == 3 else (10 if i % 4 == 1 else 0),
              [r["py"][0] == "ok" for r in s["res"]]) for i, s in enumerate(chosen)]
     results = core.pmap_safe(run_program, args, timeout=90)
     nontriv = 0
